@@ -308,6 +308,38 @@ CHECKS["C19"] = dict(
     note=TB + "; harness/narrow_caps.py (ast reader); the support-evaluation counter wraps collider.support_function",
 )
 
+CHECKS["C07"] = dict(
+    category="translation_validation",
+    text=("Every success=True result of gjk -> epa is judged by Coq-proven result checkers (Checker/Pen.v, theorems in Props/C07.v) evaluated by "
+          "vm_compute on the exact rationals of the returned vector; A and B are the exact shape expressions of the floats given to the "
+          "constructors. Proved for ALL inputs: (1) touch_cert = true => after translating B by mtv some direction sees an extent of A-(B+mtv) of "
+          "at most tau (residual overlap), a certified pair of points is within tau (remaining gap), and depth(A,B) <= |mtv| + tau; (2) "
+          "depth_ge_cert = true => for EVERY direction n there are a in A, b in B with (a-b).n >= rho |n| (a cone-tree certificate: the octants are "
+          "split until one certified point of A-B serves a whole cone; the children provably cover the parent) - with rho = |mtv| - tau: no "
+          "translation shorter than |mtv| - tau separates; (3) failure verdicts are certified too (too_long_cert, sep_cert). tau = 1e-6 L. Judged "
+          "per generated input only: everything about EPA itself - there is no model of the EPA loop; trees, split directions, points and touching "
+          "pairs are untrusted witnesses. The depth LOWER bound is proven only for polytope pairs; for smooth pairs only a certified refutation is "
+          "searched. 'Hulls, boxes and small meshes must succeed' is judged per case; both simplex windings are run. Known findings F2, F19."),
+    design_ref="DESIGN.md section 5, C07",
+    technique="Coq-proven result checkers (cone-tree certificate for the penetration depth, support-value bounds) evaluated by vm_compute on the implementation's exact outputs",
+    note=TB + "; harness/narrow.py parts(); the worker observes n_points by wrapping _distance_loop; scipy only builds untrusted witnesses",
+)
+CHECKS["C08"] = dict(
+    category="translation_validation",
+    text=("Every mpr_penetration answer is judged by the Coq-proven checker pen_cert (Checker/PenMpr.v, Props/C08.v) on exact rationals: depth "
+          "t >= 0, ||u|^2 - 1| <= 1e-9 or (t = 0 and u = 0); B moved by the exact rational t*u: some direction sees an extent <= tol (residual "
+          "overlap); depth(A,B) <= t + tol; the contact position within tol of a certified point of A and of B; 'not intersecting' answers: "
+          "depth(A,B) <= tol. tol = 2e-3 L. Soundness of pen_cert is proved for all inputs; failure verdicts carry a proven refutation where one "
+          "exists (sep_cert, cone-tree depth_ge_cert on polytope pairs). Proved about the hand-written model Model/Mpr.v of the result-producing "
+          "functions over R, for all inputs: mpr_depth_nonneg; mpr_dir_unit_or_zero; mpr_contact_in_both_partial (if the weights are >= 0 the "
+          "contact position is the midpoint of a point of A and a point of B - sign and distance are what the per-run certificate bounds). No "
+          "model of portal discovery / refinement in this check (C02 replays mpr_intersection traces). Results are read only after two further "
+          "unrelated MPR queries in the same process (aliasing of internal state is observed). Known findings F20, F22."),
+    design_ref="DESIGN.md section 5, C08",
+    technique="Coq-proven result checker evaluated by vm_compute on the implementation's exact outputs + theorems about a Gallina model of the result-producing functions",
+    note=TB + "; harness/narrow.py parts(); per-arm observation by wrapping module-level functions in the worker",
+)
+
 NA_DEFAULT = "no check registered yet: machinery under construction in this session (DESIGN.md section 5 has the plan); not claimed"
 NA = {}
 
